@@ -1,5 +1,5 @@
 (* C10 - statements: rules and directives are read back as written. *)
-Require Import V.Lib.Base V.Lib.Calls V.Lib.Dec V.C09.Spec V.Gen.Consts_C10 V.C10.Model V.C10.Grammar V.C10.ProofsStream V.C10.ProofsRead.
+Require Import V.Lib.Base V.Lib.Calls V.Lib.Dec V.C09.Spec V.Gen.Consts_C10 V.C10.Model V.C10.Args V.C10.Grammar V.C10.ProofsStream V.C10.ProofsRead V.C10.ProofsArgs.
 Local Open Scope Z_scope.
 
 (* after a statement: not white space, and not '[' (which would be taken for the value of #external) *)
@@ -144,53 +144,62 @@ Proof.
     rewrite <- app_assoc. eexists. reflexivity.
 Qed.
 
-Lemma r_str_loop b : forall quoted sym fuel, str_ok quoted b = true -> (length b < fuel)%nat ->
-  reads (m_str_loop fuel quoted sym) b (sym ++ b) [] (fun tail => hd 0 tail = 34).
-Proof.
-  induction b as [|c b IH]; intros quoted sym fuel Hs Hf tail ln ac Ht; (destruct fuel as [|fu]; [simpl in Hf; lia|]);
-    cbn [m_str_loop app]; unfold bind; rewrite peek_false.
-  - cbn [str_ok] in Hs. apply negb_true_iff in Hs. subst quoted. rewrite Ht. change (negb (34 =? 0) && (negb (34 =? 34) || false)) with false.
-    rewrite app_nil_r. eexists. reflexivity.
-  - cbn [str_ok] in Hs. apply andb_true_iff in Hs. destruct Hs as [Hs H4]. apply andb_true_iff in Hs. destruct Hs as [Hs H3].
-    apply andb_true_iff in Hs. destruct Hs as [H1 H2]. cbn [hd].
-    assert (E : negb (c =? 0) && (negb (c =? 34) || quoted) = true).
-    { rewrite H1. cbn [andb]. destruct (c =? 34), quoted; try reflexivity. discriminate H3. }
-    rewrite E. destruct (get_plain c (b ++ tail) ln ac ltac:(lia)) as [ln1 E1]. rewrite E1.
-    destruct (IH (negb quoted && (c =? 92)) (sym ++ [c]) fu H4 ltac:(simpl in Hf; lia) tail ln1 ac Ht) as [ln2 E2]. rewrite E2.
-    rewrite <- app_assoc. eexists. reflexivity.
-Qed.
-
 Definition ok_term (tail : list Z) : Prop := pun tail /\ hd 0 tail <> 40.
 
-Lemma r_term n txt : term_ok n -> G_term n txt -> reads m_term txt n [] ok_term.
+Lemma args_nws args : forall ta l, Forall (fun a => arg_ok 0 a = true) args -> G_args args ta -> nws l -> nws (ta ++ l).
 Proof.
-  intros Hn (w & Hw & ->) tail ln ac (Hp & H40). unfold m_term, bind at 1. rewrite peek_false.
-  destruct (follow w tail Hw Hp) as [F1 F2].
-  destruct Hn as [(c & r & -> & Hc & Hr) | (b & -> & Hb)].
-  - cbn [app hd]. rewrite Hc.
-    assert (Hidc : is_idchar c = true) by (unfold is_idchar, is_alnum; destruct (is_lower c); [reflexivity|]; cbn [orb] in *; now rewrite Hc, orb_true_r).
-    unfold bind, remaining. cbn [str rest].
-    destruct (r_ident_loop r c [] (S (length (c :: (r ++ w ++ tail)))) Hidc Hr ltac:(cbn [length]; rewrite !app_length; lia) (w ++ tail) ln ac) as [ln1 E1].
-    { unfold is_idchar. rewrite F1. destruct (Z.eqb_spec (hd 0 (w ++ tail)) 95); [contradiction | reflexivity]. }
-    cbn [app] in E1. rewrite <- (app_assoc r w tail). rewrite E1.
-    destruct (skipws_run w tail ln1 ac Hw (pun_nws _ Hp)) as [ln2 E2]. rewrite E2.
-    change t_lpar with [40]. rewrite mtok_absent by (auto; discriminate). unfold ret at 1.
-    unfold skipws, on_str. cbn [str acc]. rewrite a_skipws_nws by now apply pun_nws. eexists. reflexivity.
-  - cbn [app hd]. change (is_lower 34 || (34 =? 95)) with false. cbv iota. change (34 =? 34) with true. cbv iota.
-    unfold m_str, bind, on_str. cbn [str acc]. change t_quote with [34].
-    rewrite <- !app_assoc. change (34 :: b ++ [34] ++ w ++ tail) with ([34] ++ b ++ [34] ++ w ++ tail). rewrite a_match_tok_yes.
-    unfold require, remaining. cbn [str rest].
-    destruct (r_str_loop b false ([] ++ [34]) (S (length (b ++ [34] ++ w ++ tail))) Hb ltac:(rewrite app_length; lia) ([34] ++ w ++ tail) ln ac eq_refl) as [ln1 E1].
-    rewrite E1.
-    destruct (reads_tok [34] w true Hw tail ln1 ([] ++ ac) (pun_nws _ Hp)) as [ln2 E2]. rewrite <- !app_assoc in E2. rewrite E2.
-    unfold ret at 1. unfold skipws, on_str. cbn [str acc]. rewrite a_skipws_nws by now apply pun_nws. eexists. reflexivity.
+  destruct args as [|a more]; intros ta l HP HG Hl; [contradiction|]. cbn [G_args] in HG. destruct more as [|b more'].
+  - apply (items_nws a 0 ta l (Forall_inv HP) HG Hl).
+  - destruct HG as (t1 & w & t2 & G1 & _ & _ & ->). rewrite <- !app_assoc. apply (items_nws a 0 t1 _ (Forall_inv HP) G1). reflexivity.
 Qed.
 
-Lemma term_hd n txt l : term_ok n -> G_term n txt -> nws (txt ++ l).
+Lemma r_term n txt : G_term n txt -> reads m_term txt n [] ok_term.
 Proof.
-  intros Hn (w & _ & ->). unfold nws. destruct Hn as [(c & r & -> & Hc & _) | (b & -> & _)].
+  intros [[Hn (w & Hw & ->)] | (c & r & args & w0 & w1 & ta & w2 & -> & Hc & Hr & Hargs & Hw0 & Hw1 & Hw2 & Ga & ->)]; intros tail ln ac (Hp & H40);
+    unfold m_term, bind at 1; rewrite peek_false.
+  - destruct (follow w tail Hw Hp) as [F1 F2].
+    destruct Hn as [(c & r & -> & Hc & Hr) | (b & -> & Hb)].
+    + cbn [app hd]. rewrite Hc.
+      assert (Hidc : is_idchar c = true) by (unfold is_idchar, is_alnum; destruct (is_lower c); [reflexivity|]; cbn [orb] in *; now rewrite Hc, orb_true_r).
+      unfold bind, remaining. cbn [str rest].
+      destruct (r_ident_loop r c [] (S (length (c :: (r ++ w ++ tail)))) Hidc Hr ltac:(cbn [length]; rewrite !app_length; lia) (w ++ tail) ln ac) as [ln1 E1].
+      { unfold is_idchar. rewrite F1. destruct (Z.eqb_spec (hd 0 (w ++ tail)) 95); [contradiction | reflexivity]. }
+      cbn [app] in E1. rewrite <- (app_assoc r w tail). rewrite E1.
+      destruct (skipws_run w tail ln1 ac Hw (pun_nws _ Hp)) as [ln2 E2]. rewrite E2.
+      change t_lpar with [40]. rewrite mtok_absent by (auto; discriminate). unfold ret at 1.
+      unfold skipws, on_str. cbn [str acc]. rewrite a_skipws_nws by now apply pun_nws. eexists. reflexivity.
+    + cbn [app hd]. change (is_lower 34 || (34 =? 95)) with false. cbv iota. change (34 =? 34) with true. cbv iota.
+      unfold bind.
+      destruct (r_str b w [] Hb Hw tail ln ac (pun_nws _ Hp)) as [ln1 E1]. rewrite <- !app_assoc in E1. cbn [app] in E1. rewrite <- !app_assoc. cbn [app]. rewrite E1.
+      unfold skipws, on_str. cbn [str acc]. rewrite a_skipws_nws by now apply pun_nws. eexists. reflexivity.
+  - rewrite <- !app_assoc. cbn [app hd]. rewrite Hc.
+    assert (Hidc : is_idchar c = true) by (unfold is_idchar, is_alnum; destruct (is_lower c); [reflexivity|]; cbn [orb] in *; now rewrite Hc, orb_true_r).
+    unfold bind, remaining. cbn [str rest].
+    set (X := w0 ++ 40 :: w1 ++ ta ++ 41 :: w2 ++ tail).
+    assert (HX : is_idchar (hd 0 X) = false).
+    { unfold X. destruct w0 as [|x q]; [reflexivity|]. unfold wsl in Hw0. simpl in Hw0. apply andb_true_iff in Hw0. destruct Hw0 as [Hx _].
+      cbn [app hd]. unfold is_ws in Hx. unfold is_idchar, is_alnum, is_lower, is_upper, is_digit. lia. }
+    destruct (r_ident_loop r c [] (S (length (c :: r ++ X))) Hidc Hr ltac:(cbn [length]; rewrite !app_length; lia) X ln ac HX) as [ln1 E1].
+    cbn [app] in E1. rewrite E1. unfold X.
+    assert (N1 : nws (40 :: w1 ++ ta ++ 41 :: w2 ++ tail)) by reflexivity.
+    destruct (skipws_run w0 _ ln1 ac Hw0 N1) as [ln2 E2]. rewrite E2.
+    assert (N2 : nws (ta ++ 41 :: w2 ++ tail)) by (apply (args_nws args ta _ Hargs Ga); reflexivity).
+    destruct (reads_tok [40] w1 false Hw1 _ ln2 ac N2) as [ln3 E3]. rewrite <- !app_assoc in E3. cbn [app] in E3. change t_lpar with [40]. rewrite E3.
+    destruct (r_args_loop args ((c :: r) ++ [40]) (S (length (ta ++ 41 :: w2 ++ tail))) ta Hargs Ga
+               ltac:(pose proof (G_args_len args ta Ga); rewrite app_length; lia) (41 :: w2 ++ tail) ln3 ([] ++ ac) eq_refl) as [ln4 E4].
+    cbn [app] in E4. cbn [app]. rewrite E4.
+    destruct (reads_tok [41] w2 true Hw2 tail ln4 ([] ++ [] ++ ac) (pun_nws _ Hp)) as [ln5 E5]. rewrite <- !app_assoc in E5. change t_rpar with [41]. cbn [app] in E5. cbn [app]. rewrite E5.
+    unfold ret at 1. unfold skipws, on_str. cbn [str acc]. rewrite a_skipws_nws by now apply pun_nws.
+    eexists. unfold ret. f_equal. rewrite <- !app_assoc. reflexivity.
+Qed.
+
+Lemma term_hd n txt l : G_term n txt -> nws (txt ++ l).
+Proof.
+  intros [[Hn (w & _ & ->)] | (c & r & args & w0 & w1 & ta & w2 & _ & Hc & _ & _ & _ & _ & _ & _ & ->)]; unfold nws.
+  - destruct Hn as [(c & r & -> & Hc & _) | (b & -> & _)].
+    + cbn [app hd]. unfold is_lower, is_ws in *. lia.
+    + reflexivity.
   - cbn [app hd]. unfold is_lower, is_ws in *. lia.
-  - reflexivity.
 Qed.
 
 (* ---------- chaining ---------- *)
@@ -345,10 +354,10 @@ Proof.
   eapply reads_eff.
   - skipkw t_minimize t_output. skipkw t_project t_output.
     eapply (reads_bind _ _ (t_output ++ w0) _ _ _ _ _ _ okS); [apply (reads_tok t_output w0 false Hw0) | cbv beta iota | ].
-    + rb (r_term n tt0 Hn Gt).
+    + rb (r_term n tt0 Gt).
       * apply (r_cond_dot c tc td (fun c => mtok t_dot true ;;; emit (COutput n c) ;;; ret true)); try assumption. apply (r_dot_emit _ true td Gd).
       * intros tail _. destruct (cond_first c tc td tail Hc Gc Gd) as [P [E|E]]; (split; [exact P | rewrite E; discriminate]).
-    + intros tail _. rewrite <- !app_assoc. apply (term_hd n tt0 _ Hn Gt).
+    + intros tail _. rewrite <- !app_assoc. apply (term_hd n tt0 _ Gt).
   - reflexivity.
 Qed.
 
